@@ -124,8 +124,11 @@ func sbJoin(args []sbArg, quoted bool) string {
 }
 
 // sbRender gives the lines (each evaluated by a call of its own, in order) of
-// the probe that calls name through route with the arguments of shape.
-func sbRender(name, route string, args []sbArg) []string {
+// the probe that calls name through route with the arguments of shape; uniq
+// makes the helper names of one vector its own (the vectors of the cmd
+// configuration share a repl process: a failed (def zvalias X) must not leave
+// the alias of an earlier vector in place).
+func sbRender(name, route string, args []sbArg, uniq string) []string {
 	if strings.HasPrefix(name, ".") && len(name) > 1 && name != ".." {
 		if isReplCmd(name) {
 			// a repl command: the line is the command and its words
@@ -144,7 +147,7 @@ func sbRender(name, route string, args []sbArg) []string {
 	case "direct":
 		return []string{"(" + name + a + ")"}
 	case "alias":
-		return []string{"(def zvalias " + name + ")", "(zvalias" + a + ")"}
+		return []string{"(def zvalias" + uniq + " " + name + ")", "(zvalias" + uniq + a + ")"}
 	case "eval":
 		return []string{"(eval (quote (" + name + a + ")))"}
 	case "sym":
@@ -152,7 +155,7 @@ func sbRender(name, route string, args []sbArg) []string {
 	case "apply":
 		return []string{"(apply " + name + " [" + strings.TrimPrefix(aq, " ") + "])"}
 	case "macro":
-		return []string{"(defmac zvmac [] ^(" + name + a + "))", "(zvmac)"}
+		return []string{"(defmac zvmac" + uniq + " [] ^(" + name + a + "))", "(zvmac" + uniq + ")"}
 	case "builder":
 		return []string{"(infix [(" + name + a + ")])"}
 	case "fn":
@@ -926,111 +929,190 @@ func sbReadTail(p string) string {
 
 // ---------------------------------------------------------------- parent: the real binary
 
-// runCmd feeds jobs to one `zygo -sandbox` process; alone==false is a batch
-// whose result is used only when nothing at all happened.
-func (r *sbRunner) runCmdOnce(jobs []sbJob) (obs map[int]sbObs, clean bool) {
-	dir, ctl, fsec, esec := r.freshDirs()
-	defer os.RemoveAll(filepath.Dir(dir))
-	_ = ctl
-	w := sbNewWatch(dir, fsec, esec)
-	defer w.close()
-	if !w.ino {
-		r.inotify = false
-	}
-	var in bytes.Buffer
-	for _, j := range jobs {
-		fmt.Fprintf(&in, "(println \"@@ZVB %d\")\n", j.K)
-		for _, l := range j.Lines {
-			in.WriteString(strings.ReplaceAll(l, sbPH, dir) + "\n")
-		}
-	}
-	in.WriteString("(println \"@@ZVE\")\n(+ 40 2)\n")
-	cmd := exec.Command(r.zygoBin, "-sandbox", "-quiet", "-no-liner")
-	cmd.Dir = dir
-	cmd.Env = sbChildEnv(dir, esec)
-	cmd.Stdin = &in
-	var out, errb bytes.Buffer
-	cmd.Stdout, cmd.Stderr = &out, &errb
-	err := sbRunTimeout(cmd, time.Duration(len(jobs))*time.Second+60*time.Second)
-	text := out.String()
-	obs = map[int]sbObs{}
-	// segments
-	segs := map[int]string{}
-	rest := text
-	ended := false
-	for {
-		i := strings.Index(rest, "@@ZVB ")
-		if i < 0 {
-			break
-		}
-		rest = rest[i+6:]
-		nl := strings.IndexByte(rest, '\n')
-		if nl < 0 {
-			break
-		}
-		k, e := strconv.Atoi(strings.TrimSpace(rest[:nl]))
-		rest = rest[nl+1:]
-		end := strings.Index(rest, "@@ZVB ")
-		seg := rest
-		if end >= 0 {
-			seg = rest[:end]
-		}
-		if z := strings.Index(seg, "@@ZVE"); z >= 0 {
-			ended = true
-			seg = seg[:z]
-		}
-		if e == nil {
-			segs[k] = seg
-		}
-	}
-	echoOK := ended && strings.Contains(text[strings.LastIndex(text, "@@ZVE"):], "42")
-	fsEvents := w.collect(text, errb.String())
-	died := !ended
-	clean = err == nil && echoOK && len(fsEvents) == 0 && errb.Len() == 0
-	for _, j := range jobs {
-		seg, have := segs[j.K]
-		o := sbObs{K: j.K, Out: "val", Events: []string{}}
-		if !have {
-			clean = false
-			o.Out = "missing"
-		} else if strings.Contains(seg, "error in ") || strings.Contains(seg, "Error") {
-			o.Out = "err"
-		}
-		obs[j.K] = o
-	}
-	if len(jobs) == 1 {
-		o := obs[jobs[0].K]
-		evs := fsEvents
-		stderr := errb.String()
-		switch {
-		case err != nil && err.Error() == "timeout":
-			o.Out = "hang"
-		case died && (strings.Contains(stderr, "panic:") || strings.Contains(stderr, "fatal error:") || strings.Contains(stderr, "goroutine ")):
-			o.Out = "crash"
-			o.Note = trunc(stderr, 200)
-		case died || err != nil:
-			o.Out = "exit"
-			evs["exit"] = true
-			o.Note = fmt.Sprint(err)
-		}
-		o.Events = sortedKeys(evs)
-		obs[jobs[0].K] = o
-	}
-	return obs, clean
+// sbRepl drives one `zygo -sandbox -quiet -no-liner` process line by line:
+// the repl handles one line before it reads the next, so the output and the
+// file-system events between two sentinels belong to the probe between them.
+type sbRepl struct {
+	cmd    *exec.Cmd
+	in     *os.File
+	chunks chan []byte
+	buf    []byte
+	dead   bool
+	dir    string
+	root   string
+	w      *sbWatch
 }
 
+func (r *sbRunner) startRepl() *sbRepl {
+	dir, _, fsec, esec := r.freshDirs()
+	p := &sbRepl{dir: dir, root: filepath.Dir(dir), chunks: make(chan []byte, 64)}
+	p.w = sbNewWatch(dir, fsec, esec)
+	if !p.w.ino {
+		r.inotify = false
+	}
+	inR, inW, err := os.Pipe()
+	if err != nil {
+		fatal("pipe: %v", err)
+	}
+	outR, outW, err := os.Pipe()
+	if err != nil {
+		fatal("pipe: %v", err)
+	}
+	p.cmd = exec.Command(r.zygoBin, "-sandbox", "-quiet", "-no-liner")
+	p.cmd.Dir = dir
+	p.cmd.Env = sbChildEnv(dir, esec)
+	p.cmd.Stdin, p.cmd.Stdout, p.cmd.Stderr = inR, outW, outW
+	if err := p.cmd.Start(); err != nil {
+		fatal("cannot start %s: %v", r.zygoBin, err)
+	}
+	inR.Close()
+	outW.Close()
+	p.in = inW
+	go func() {
+		for {
+			b := make([]byte, 32*1024)
+			n, err := outR.Read(b)
+			if n > 0 {
+				p.chunks <- b[:n]
+			}
+			if err != nil {
+				close(p.chunks)
+				outR.Close()
+				return
+			}
+		}
+	}()
+	return p
+}
+
+// until reads the output up to and including the line that contains mark;
+// ok is false when the process ended or stayed silent for too long.
+func (p *sbRepl) until(mark string, d time.Duration) (text string, ok bool, timedOut bool) {
+	timer := time.NewTimer(d)
+	defer timer.Stop()
+	for {
+		if i := bytes.Index(p.buf, []byte(mark)); i >= 0 {
+			if nl := bytes.IndexByte(p.buf[i:], '\n'); nl >= 0 {
+				text = string(p.buf[:i+nl+1])
+				p.buf = p.buf[i+nl+1:]
+				return text, true, false
+			}
+		}
+		select {
+		case b, more := <-p.chunks:
+			if !more {
+				p.dead = true
+				text = string(p.buf)
+				p.buf = nil
+				return text, false, false
+			}
+			p.buf = append(p.buf, b...)
+		case <-timer.C:
+			text = string(p.buf)
+			p.buf = nil
+			return text, false, true
+		}
+	}
+}
+
+func (p *sbRepl) stop() (exit string) {
+	p.in.Close()
+	done := make(chan error, 1)
+	go func() { done <- p.cmd.Wait() }()
+	select {
+	case err := <-done:
+		exit = fmt.Sprint(err)
+	case <-time.After(10 * time.Second):
+		p.cmd.Process.Kill()
+		<-done
+		exit = "killed"
+	}
+	for range p.chunks {
+	}
+	p.w.close()
+	os.RemoveAll(p.root)
+	return exit
+}
+
+// runCmd executes jobs on the real binary; the probes of one session share a
+// process, a new process is started every sbCmdSessions sessions, after the
+// death of a process and when the repl no longer echoes values.
+const sbCmdSessions = 40
+
 func (r *sbRunner) runCmd(jobs []sbJob) map[int]sbObs {
-	obs, clean := r.runCmdOnce(jobs)
-	if clean || len(jobs) == 1 {
-		return obs
-	}
-	r.notes["cmd batches re-run probe by probe"]++
-	out := map[int]sbObs{}
+	obs := map[int]sbObs{}
+	var p *sbRepl
+	sessions := 0
+	lastSess := -2
 	for _, j := range jobs {
-		o, _ := r.runCmdOnce([]sbJob{j})
-		out[j.K] = o[j.K]
+		if p != nil && j.Sess != lastSess {
+			sessions++
+			if sessions >= sbCmdSessions || j.Sess < 0 {
+				p.stop()
+				p = nil
+			}
+		}
+		lastSess = j.Sess
+		if p == nil {
+			p = r.startRepl()
+			sessions = 0
+		}
+		var in bytes.Buffer
+		fmt.Fprintf(&in, "(println \"@@ZVB %d\")\n", j.K)
+		for _, l := range j.Lines {
+			in.WriteString(strings.ReplaceAll(l, sbPH, p.dir) + "\n")
+		}
+		fmt.Fprintf(&in, "(println \"@@ZVE %d\")\n(+ 40 2)\n(println \"@@ZVF %d\")\n", j.K, j.K)
+		p.in.Write(in.Bytes())
+		seg, ok, timedOut := p.until(fmt.Sprintf("@@ZVE %d", j.K), sbProbeTimeout+time.Duration(len(j.Lines))*time.Second)
+		o := sbObs{K: j.K, Out: "val", Events: []string{}}
+		evs := map[string]bool{}
+		if ok {
+			if i := strings.Index(seg, fmt.Sprintf("@@ZVB %d", j.K)); i >= 0 {
+				seg = seg[i:]
+			}
+			if strings.Contains(seg, "error in ") || strings.Contains(seg, "Error") {
+				o.Out = "err"
+			}
+			evs = p.w.collect(seg)
+			chk, ok2, _ := p.until(fmt.Sprintf("@@ZVF %d", j.K), sbProbeTimeout)
+			if !ok2 || !strings.Contains(chk, "42") {
+				// the repl is no longer in its normal state (echo off, ...): not an event; start afresh
+				r.notes["cmd repl restarted because its state was changed by a probe"]++
+				o.Note = "repl state changed"
+				p.stop()
+				p = nil
+			}
+		} else {
+			// the process ended (or hung) during this probe
+			for k, v := range p.w.collect(seg) {
+				evs[k] = v
+			}
+			switch {
+			case timedOut:
+				o.Out = "hang"
+				p.cmd.Process.Kill()
+				p.stop()
+			default:
+				status := p.stop()
+				if strings.Contains(seg, "panic:") || strings.Contains(seg, "fatal error:") || strings.Contains(seg, "goroutine ") {
+					o.Out = "crash"
+					o.Note = trunc(seg, 200)
+				} else {
+					o.Out = "exit"
+					evs["exit"] = true
+					o.Note = status
+				}
+			}
+			p = nil
+		}
+		o.Events = sortedKeys(evs)
+		obs[j.K] = o
 	}
-	return out
+	if p != nil {
+		p.stop()
+	}
+	return obs
 }
 
 // ---------------------------------------------------------------- cases
@@ -1094,13 +1176,13 @@ func (r *sbRunner) execute(vecs []sbVector, alone bool, w *ndWriter) {
 			name = v.Names[0]
 		}
 		for _, s := range sbShapes {
-			probes = append(probes, sbProbe{vec: vi, shape: s.name, lines: sbRender(name, v.Route, s.args)})
+			probes = append(probes, sbProbe{vec: vi, shape: s.name, lines: sbRender(name, v.Route, s.args, strconv.Itoa(vi))})
 		}
 	}
 	var inproc, viaCmd []sbJob
 	for k, p := range probes {
 		j := sbJob{K: k, Sess: p.vec, Cfg: vecs[p.vec].Cfg, Lines: p.lines}
-		if alone || vecs[p.vec].Kind == "prog" {
+		if alone {
 			j.Sess = -1
 		}
 		if j.Cfg == "cmd" {
@@ -1125,20 +1207,25 @@ func (r *sbRunner) execute(vecs []sbVector, alone bool, w *ndWriter) {
 			}
 		}
 	}
-	batch(inproc, 150, r.runWorker)
+	batch(inproc, 2400, r.runWorker)
 	if len(viaCmd) > 0 && r.zygoBin == "" {
 		fatal("vectors of the cmd configuration need -zygo BIN")
 	}
-	batch(viaCmd, 100, r.runCmd)
+	batch(viaCmd, 1<<30, r.runCmd)
 	// every probe of an in-process configuration that raised an event in a batch runs again, alone
 	if !alone {
-		for _, j := range inproc {
+		for _, j := range append(append([]sbJob(nil), inproc...), viaCmd...) {
 			o, ok := obs[j.K]
 			if !ok || len(o.Events) == 0 || j.Cfg == "full" {
 				continue // (the control configuration is expected to raise events)
 			}
 			j.Sess = -1
-			single := r.runWorker([]sbJob{j})[j.K]
+			var single sbObs
+			if j.Cfg == "cmd" {
+				single = r.runCmd([]sbJob{j})[j.K]
+			} else {
+				single = r.runWorker([]sbJob{j})[j.K]
+			}
 			detail[j.K] = fmt.Sprintf("batch=%v alone=%v", o.Events, single.Events)
 			o.Events = unionEvents(o.Events, single.Events)
 			if single.Out == "exit" {
@@ -1183,12 +1270,13 @@ func (r *sbRunner) execute(vecs []sbVector, alone bool, w *ndWriter) {
 type sbGen struct {
 	r     *rng
 	names []sbName
-	n     int // counter for fresh helper names
+	n     int    // counter for fresh helper names
+	tag   string // makes the helper names of one program its own
 }
 
 func (g *sbGen) fresh(p string) string {
 	g.n++
-	return fmt.Sprintf("%s%d", p, g.n)
+	return fmt.Sprintf("%s%s%d", p, g.tag, g.n)
 }
 
 // program returns the lines of one program and the universe names it mentions.
@@ -1367,7 +1455,7 @@ func init() {
 						continue
 					}
 					idx++
-					g := &sbGen{r: newRng(c.seed, uint64(ci)<<32|uint64(i)), names: u.Names}
+					g := &sbGen{r: newRng(c.seed, uint64(ci)<<32|uint64(i)), names: u.Names, tag: fmt.Sprintf("%dx", i)}
 					lines, used := g.program(ci)
 					vecs = append(vecs, sbVector{ID: fmt.Sprintf("g%d-%s-%d", c.seed, cfg, i), Kind: "prog", Cfg: cfg, Names: used, Route: "prog", Progs: [][]string{lines}})
 				}
